@@ -234,6 +234,14 @@ EcsOk(ev) ==
          IF ev.ecs THEN \E a \in srcs : a.fam # 0 /\ EcsOption(a) = [fam |-> ev.ecsfam, src |-> ev.ecssrc, scope |-> ev.ecsscope, addr |-> ev.ecsaddr]
          ELSE \E a \in srcs : a.fam = 0
 
+\* the same from outside (no forward hook): the option is the truncation of the address of a client that asked
+\* for this name - also on a background refresh, which is made on behalf of the client whose hit started it
+Askers(n) == {q[k].src : k \in {k \in DOMAIN q : Has(q[k], "name") /\ LowerName(q[k].name) = n}}
+EcsClientOk(ev) ==
+    IF ~cfg.ecs \/ Askers(ev.name) = {} THEN TRUE
+    ELSE IF ev.ecs THEN \E a \in Askers(ev.name) : a.fam # 0 /\ EcsOption(a) = [fam |-> ev.ecsfam, src |-> ev.ecssrc, scope |-> ev.ecsscope, addr |-> ev.ecsaddr]
+         ELSE \E a \in Askers(ev.name) : a.fam = 0
+
 Outst(k) == IF k \in DOMAIN outst THEN outst[k] ELSE 0
 \* a cache entry for this question is live (with more than the clock granularity left) at time t
 LiveEntryAt(n, c, ty, t) == \E st \in AllStores : st.name = n /\ st.cls = c /\ st.typ = ty /\ ~st.tc
@@ -248,6 +256,7 @@ UpRecv == /\ IsEvent("up.recv")
                        \cup (IF ev.nopt = 1 /\ ev.nar = 1 /\ (\A i \in 1..Len(ev.optcodes) : ev.optcodes[i] = 8) /\ Len(ev.optcodes) <= 1
                              THEN {} ELSE {"Inv_C12_UpOpt"})
                        \cup (IF EcsOk(ev) THEN {} ELSE {"Inv_C12_Ecs"})
+                       \cup (IF EcsClientOk(ev) THEN {} ELSE {"Inv_C12_EcsClient"})
                        \cup (IF LiveEntryAt(ev.name, ev.cls, ev.typ, ev.t) /\ Outst(<<ev.name, ev.cls, ev.typ>>) >= 1
                              THEN {"Inv_C19_SingleUp"} ELSE {}))
              /\ upq' = upq \cup {<<ev.up, ev.name, ev.cls, ev.typ>>}
